@@ -125,6 +125,14 @@ class C13(CurveCheck):
                 skv.append(L + rng.randrange(-2**16, 2**16))
             else:
                 skv.append(rng.getrandbits(rng.choice([8, 64, 128, 250, 252, 253])))
+        # aliases of valid scalars: a high bit set on top of a value below l (masking the top bit(s) would accept them), and v + k*l
+        for v in [0, 1, 2, L - 1, L - 2] + [rng.randrange(L) for _ in range(20 if q else 400)]:
+            for hb in (252, 253, 254, 255):
+                skv.append(v | (1 << hb))
+            skv.append(v | (3 << 254))
+            for k in (1, 2, 7, 8, 15):
+                if v + k * L < 2**256:
+                    skv.append(v + k * L)
         for v in skv:
             cs.append(Case("sk " + hx(le(v)), "sk:below-l" if v < L else "sk:at-or-above-l"))
         for n in (0, 1, 31, 33, 64):
